@@ -148,7 +148,7 @@ Theorem C04_views_ordered_perm : forall dcf rackf (g : ring N) pre t,
               (rs_iter dcf rackf g pre t (replicas_for dcf rackf g pre t s dc)).
 Proof. exact ordered_perm. Qed.
 
-(* ---- the known class: a token owned by two nodes (finding F7) --------------------------
+(* ---- the known class: a token owned by two nodes (finding F18) --------------------------
    The binary search of ring_range_full lands on the LAST of equal tokens.  With a token shared
    by nodes of two datacenters (inside the property's quantifier) the ordered view of an
    unrestricted NTS set can start with a non-replica, and a SimpleStrategy answer differs
